@@ -27,16 +27,36 @@ def cond_key(b, c):
         except Undecided:
             pass
     if c[0] == "cmp" and c[1] in ("==", "!=") and is_const(c[3]) and isinstance(c[3][1], str):
-        return ("str", c[1], canon(c[2]) if c[2][0] != "param" else ("param", b.synonyms.get(c[2][1], c[2][1]))), c[3][1]
+        return ("str", c[1], canon(c[2]) if c[2][0] != "param" else ("param", b.synonyms.get(c[2][1], c[2][1])), c[3][1]), None
     if c[0] == "cmp" and c[2][0] == "param":
         return ("term", canon(("cmp", c[1], ("param", b.synonyms.get(c[2][1], c[2][1])), c[3]))), None
     return ("term", canon(c)), None
 
 
-def path_key(b, p):
+def str_domains(paths):
+    """{tested term: set of admissible literals} from the membership validations (`x not in [a, b]: raise`) of the given paths"""
+    out = {}
+    for p in paths:
+        for c, _v in p.conds:
+            if c[0] == "cmp" and c[1] in ("notin", "in") and c[3][0] in ("list", "tuple") and c[3][1] and all(is_const(x) and isinstance(x[1], str) for x in c[3][1]):
+                out[canon(c[2])] = {x[1] for x in c[3][1]}
+    return out
+
+
+def path_key(b, p, domains=None):
+    """string tests are brought to one form: `x != lit` is `not (x == lit)`, and on a validated two-valued domain {a, b}
+    `x == b` is `not (x == a)` - so a branch written on the complementary literal is matched, not reported"""
     keys, details = set(), {}
     for c, v in p.conds:
         k, d = cond_key(b, c)
+        if k[0] == "str":
+            _s, op_, lhs, lit = k
+            if op_ == "!=":
+                v = not v
+            dom = (domains or {}).get(canon(lhs))
+            if dom and len(dom) == 2 and lit in dom and lit != min(dom):
+                lit, v = min(dom), not v
+            k = ("str", lhs, lit)
         keys.add((k, v))
         details[(k, v)] = d
     return frozenset(keys), details
@@ -49,12 +69,13 @@ def compare_paths(ctx, rule, qn, specname, syn=None, env_of=None, what=""):
     syn = syn or dict(zip(f.params, spec.params(specname)))
     bi = Builder(sp, synonyms=syn)
     bs = Builder(sp)
-    spaths = [path_key(bs, p) + (p,) for p in spec.paths(specname) if p.exit == "return"]
+    domains = str_domains(spec.paths(specname))
+    spaths = [path_key(bs, p, domains) + (p,) for p in spec.paths(specname) if p.exit == "return"]
     n = 0
     for p in ctx.paths(qn):
         if p.exit != "return":
             continue
-        key, details = path_key(bi, p)
+        key, details = path_key(bi, p, domains)
         tag = ",".join("%s" % v for _c, v in p.conds) or "-"
         matches = [sp_ for k, _d, sp_ in spaths if key <= k]
         clash = None
@@ -102,6 +123,21 @@ def r1_spacing_to_size(ctx):
     n = compare_paths(ctx, "R1", qn, "coords.spacing_to_size")
     if n < 4:
         ctx.add("R1", qn + "|paths", "UNDECIDED", "only %d return paths compared (4 expected)" % n, fn=qn)
+    # "with adjust='spacing' both bounds are hit exactly": the stop handed to linspace must be the caller's stop itself, not a
+    # value recomputed through floating-point arithmetic (start + (n-1)*((stop-start)/(n-1)) equals stop only in exact arithmetic)
+    domains = str_domains(spec.paths("coords.spacing_to_size"))
+    for p in ctx.paths(qn):
+        if p.exit != "return" or p.value[0] != "tuple" or len(p.value[1]) != 2:
+            continue
+        key, _d = path_key(Builder(Space()), p, domains)
+        if not any(k[0] == "str" and k[2] == "region" and v is False for k, v in key):
+            continue
+        tag = ",".join("%s" % v for _c, v in p.conds) or "-"
+        st = p.value[1][1]
+        rounding = any(x[0] == "binop" and (x[1] in ("/", "//", "**") or (x[1] == "*" and not (is_const(x[2]) or is_const(x[3])))) for x in walk(st))
+        ctx.check("R1", "%s|stop-returned-exactly|%s" % (qn, tag), True if st == ("param", "stop") else (False if rounding else None),
+                  "adjust='spacing' returns the caller's stop unchanged (bit-exact)",
+                  bad="adjust='spacing' recomputes the stop as %s: floating-point rounding moves the end of the interval off the requested bound" % show(st)[:100], fn=qn, line=p.line)
     ok = any(p.exit == "raise" and p.conds and p.conds[0][0][0] == "cmp" and p.conds[0][0][1] in ("notin", "in") and p.conds[0][0][2] == ("param", "adjust") for p in ctx.paths(qn))
     first = all(not p.events or True for p in ctx.paths(qn))
     ctx.check("R1", qn + "|invalid-adjust-raises", True if ok and first else False, "an adjust other than 'spacing'/'region' raises", bad="invalid adjust values are no longer rejected", fn=qn)
